@@ -188,7 +188,7 @@ def mlr_rows(ctx, cols, rows, prog, outs, args=(), env=None, verb=None):
     return res
 
 
-def par(ctx, jobs, workers=8):
+def par(ctx, jobs, workers=2):
     """jobs: list of (args tuple, kwargs dict) for mlr_rows; run concurrently, results in order"""
     from concurrent.futures import ThreadPoolExecutor
     with ThreadPoolExecutor(max_workers=workers) as ex:
@@ -519,7 +519,7 @@ def run(ctx):
             ctx.violation({"broken": why}, found_input=False)
         return
     with ctx.timed("coq_cases"):
-        badi, err = coq_eval_mismatches(ctx, "C16", "C16.Model C16.Harness", "Z * Z * Z * bytes * bytes", "chk", terms, shard=1500)
+        badi, err = coq_eval_mismatches(ctx, "C16", "C16.Model C16.Harness", "Z * Z * Z * bytes * bytes", "chk", terms, shard=len(terms) // 2 + 1)
     ctx.cov["correspondence"] = {"cases": len(terms), "mismatches": len(badi)}
     if err:
         ctx.violation({"broken": "correspondence-evaluation", "detail": err[-2000:]}, found_input=False)
